@@ -328,11 +328,26 @@ func step(x *sys, o op, k int) (key, msg string) {
 	return "", ""
 }
 
-func bfs(s *hx.Seq, server bool, depth int) {
+func bfs(s *hx.Seq, server bool, depth int, from ...string) {
 	ops := alphabet(server)
 	if server { // servers need modes to exist: seed through the model alphabet's Add
 		ops = append(ops, alphabet(false)[1:5]...)
 	}
+	// from: the search starts in the state these operations lead to (most defects do not show from the initial state)
+	var root []int
+	for _, name := range from {
+		found := false
+		for oi := range ops {
+			if ops[oi].name == name {
+				root = append(root, oi)
+				found = true
+			}
+		}
+		if !found {
+			panic("no such operation: " + name)
+		}
+	}
+	depth += len(root)
 	type node struct{ path []int }
 	build := func(path []int) (*sys, string, string, int) {
 		x := newSys()
@@ -358,11 +373,15 @@ func bfs(s *hx.Seq, server bool, depth int) {
 		return
 	}
 	seen := map[string]bool{}
-	x0 := newSys()
+	x0, key0, msg0, _ := build(root)
+	if key0 != "" {
+		s.Fail(key0+" "+strings.Join(names(root), " ; "), msg0, map[string]any{"Path": root})
+		return
+	}
 	seen[x0.canon(x0.snap())] = true
 	s.State(x0.canon(x0.snap()))
-	frontier := []node{{}}
-	for d := 0; d < depth && len(frontier) > 0; d++ {
+	frontier := []node{{root}}
+	for d := len(root); d < depth && len(frontier) > 0; d++ {
 		var next []node
 		for _, n := range frontier {
 			for oi := range ops {
@@ -496,6 +515,21 @@ func main() {
 			d = 4
 		}
 		bfs(s, true, d)
+	})
+	// the same searches from the state "the normal mode was demoted while it is the active one"
+	h.Seq("model-bfs/from(normal mode demoted while active)", func(s *hx.Seq) {
+		d := 2
+		if s.Thorough {
+			d = 3
+		}
+		bfs(s, false, d, "AddMode(y,normal=true)", "ChangeToNormalMode", "UpdateMode(y,normal=false)")
+	})
+	h.Seq("server-bfs/from(normal mode demoted while active)", func(s *hx.Seq) {
+		d := 2
+		if s.Thorough {
+			d = 3
+		}
+		bfs(s, true, d, "AddMode(x,normal=true)", "srv.ClearActiveMode", "srv.UpdateMode(x,normal=false)")
 	})
 	conc := func(setup []string, threads ...[]string) {
 		var ts []string
